@@ -55,7 +55,8 @@ Record Inv (s : state) : Prop := {
   inv_w : forall w, w < nw s -> wwf (wk s w);
   inv_hold : forall c, c < nc s -> (active (ct s c) = true <-> holder s = Some (OC c));
   inv_holder : forall c, holder s = Some (OC c) -> c < nc s;
-  inv_phase : phase s
+  inv_phase : phase s;
+  inv_nolinks : nolinks s   (* the theorems are about workers that do not feed each other *)
 }.
 
 Lemma inv_init n m : Inv (init n m).
@@ -66,6 +67,7 @@ Proof.
   - intros c _. split; discriminate.
   - discriminate.
   - unfold phase, pending. cbn. intros w _ [[_ H]|H]; discriminate.
+  - intros w. reflexivity.
 Qed.
 
 (* ---- worker-only updates ---- *)
@@ -81,7 +83,7 @@ Lemma inv_set_w s w x :
   Inv s -> wwf x -> (idle x -> idle (wk s w)) -> (pending x -> pending (wk s w)) ->
   Inv (set_w s w x).
 Proof.
-  intros [Hp Hw Hh Hhd Hph] Hx Hidle Hpend. constructor; cbn [panic nw nc holder ct wk paused set_w].
+  intros [Hp Hw Hh Hhd Hph Hnl] Hx Hidle Hpend. constructor; cbn [panic nw nc holder ct wk paused set_w]; [| | | | | exact Hnl].
   - assumption.
   - intros w' Hw'. unfold upd. destruct (w' =? w); auto.
   - assumption.
@@ -90,14 +92,14 @@ Proof.
     destruct (holder s) as [[c|w1]|].
     + destruct Hph as [Hpa Hat]. split; [assumption|].
       unfold phase_at in *. cbn [panic nw nc holder ct wk paused set_w].
-      destruct (ct s c); try assumption.
+      destruct (ct s c); try assumption; try exact Hnl.
       * destruct Hat as [H0 [H1 H2]]. split; [assumption|]. split.
         -- intros w' Hw' Hi. apply H1; [assumption|]. eapply idle_upd; eassumption.
         -- intros w' Hin Hpe. apply (H2 w' Hin). eapply pending_upd; eassumption.
       * destruct Hat as [Hx0 [H0 [H1 H2]]]. split; [assumption|]. split; [assumption|]. split.
         -- intros w' Hw' Hi. apply H1; [assumption|]. eapply idle_upd; eassumption.
         -- intros w' Hin Hpe. apply (H2 w' Hin). eapply pending_upd; eassumption.
-      * destruct Hat as [H1 [H2 [H3 H4]]]. repeat split; try assumption.
+      * destruct Hat as [H1 [H2 [H3 H4]]]. repeat split; try assumption; try exact Hnl.
         -- apply (H3 w0 H). eapply idle_upd; eassumption.
         -- apply (H3 w0 H). eapply idle_upd; eassumption.
         -- intros w' Hw' Hpe. apply H4; [assumption|]. eapply pending_upd; eassumption.
@@ -114,15 +116,15 @@ Proof. unfold phase_at. cbn [nw wk set_c]. reflexivity. Qed.
 Lemma inv_set_c_inactive s c x :
   Inv s -> c < nc s -> active (ct s c) = false -> active x = false -> Inv (set_c s c x).
 Proof.
-  intros [Hp Hw Hh Hhd Hph] Hc Hold Hnew.
+  intros [Hp Hw Hh Hhd Hph Hnl] Hc Hold Hnew.
   assert (Hne : holder s <> Some (OC c)).
   { intros Heq. apply (Hh c Hc) in Heq. congruence. }
-  constructor; cbn [panic nw nc holder ct wk paused set_c]; try assumption.
+  constructor; cbn [panic nw nc holder ct wk paused set_c]; try assumption; try exact Hnl.
   - intros c' Hc'. unfold upd. destruct (c' =? c) eqn:E.
     + apply Nat.eqb_eq in E. subst c'. split; [congruence | intros Heq; contradiction].
     + apply Hh. assumption.
   - unfold phase in *. cbn [panic nw nc holder ct wk paused set_c].
-    destruct (holder s) as [[c0|w1]|]; try assumption.
+    destruct (holder s) as [[c0|w1]|]; try assumption; try exact Hnl.
     destruct Hph as [Hpa Hat]. split; [assumption|].
     assert (Hc0 : c0 <> c) by congruence.
     rewrite upd_other by assumption. apply phase_at_set_c. assumption.
@@ -132,8 +134,8 @@ Lemma inv_holder_move s c x :
   Inv s -> c < nc s -> holder s = Some (OC c) -> active x = true -> phase_at s x ->
   Inv (set_c s c x).
 Proof.
-  intros [Hp Hw Hh Hhd Hph] Hc Hhold Hnew Hat.
-  constructor; cbn [panic nw nc holder ct wk paused set_c]; try assumption.
+  intros [Hp Hw Hh Hhd Hph Hnl] Hc Hhold Hnew Hat.
+  constructor; cbn [panic nw nc holder ct wk paused set_c]; try assumption; try exact Hnl.
   - intros c' Hc'. unfold upd. destruct (c' =? c) eqn:E.
     + apply Nat.eqb_eq in E. subst c'. split; auto.
     + apply Hh. assumption.
@@ -147,8 +149,8 @@ Lemma inv_acquire s c x b :
   Inv s -> c < nc s -> holder s = None -> active x = true -> b = true ->
   phase_at s x -> Inv (set_holder (set_c (set_paused s b) c x) (Some (OC c))).
 Proof.
-  intros [Hp Hw Hh Hhd Hph] Hc Hfree Hnew -> Hat.
-  constructor; cbn [panic nw nc holder ct wk paused set_c set_paused set_holder]; try assumption.
+  intros [Hp Hw Hh Hhd Hph Hnl] Hc Hfree Hnew -> Hat.
+  constructor; cbn [panic nw nc holder ct wk paused set_c set_paused set_holder]; try assumption; try exact Hnl.
   - intros c' Hc'. unfold upd. destruct (c' =? c) eqn:E.
     + apply Nat.eqb_eq in E. subst c'. split; auto.
     + apply Nat.eqb_neq in E. split.
@@ -166,8 +168,8 @@ Lemma inv_release s c (b : bool) :
    else forall w, w < nw s -> ~ pending (wk s w)) ->
   Inv (set_holder (set_c (set_paused s b) c CIdle) None).
 Proof.
-  intros [Hp Hw Hh Hhd Hph] Hc Hhold Hnew.
-  constructor; cbn [panic nw nc holder ct wk paused set_c set_paused set_holder]; try assumption.
+  intros [Hp Hw Hh Hhd Hph Hnl] Hc Hhold Hnew.
+  constructor; cbn [panic nw nc holder ct wk paused set_c set_paused set_holder]; try assumption; try exact Hnl.
   - intros c' Hc'. unfold upd. destruct (c' =? c) eqn:E.
     + split; discriminate.
     + apply Nat.eqb_neq in E. split; [|discriminate].
@@ -260,8 +262,8 @@ Proof.
       destruct Hph as [Hpa [[Hx Hnin] [H0 [H1 H2]]]];
       pose proof (inv_w s HI x Hx) as Hwx.
     + unfold wwf in Hwx. destruct Hwx as [Hcl _]. congruence.
-    + destruct HI as [Hp Hw Hh Hhd Hph].
-      constructor; cbn [panic nw nc holder ct wk paused set_c set_w]; try assumption.
+    + destruct HI as [Hp Hw Hh Hhd Hph Hnl].
+      constructor; cbn [panic nw nc holder ct wk paused set_c set_w]; try assumption; try exact Hnl.
       * intros w' Hw'. unfold upd. destruct (w' =? x) eqn:E; [|apply Hw; assumption].
         assert (Hnp : ~ pending (wk s x)) by (apply H2; left; reflexivity).
         unfold wwf, wset_tok, pending in *. cbn [w_pc w_tok w_pclosed w_rclosed w_sub w_stop].
@@ -307,7 +309,7 @@ Proof.
       * intros w Hw _. left. apply in_seq. lia.
   - (* LResumeVisit *)
     dstep Hstep; inversion Hstep; subst; clear Hstep; apply Nat.ltb_lt in Heqb;
-      apply memb_In in Heqb0;
+      apply andb_prop in Heqb0; destruct Heqb0 as [Heqb0 _]; apply memb_In in Heqb0;
       assert (Hhold : holder s = Some (OC c))
         by (apply (inv_hold s HI c Heqb); rewrite Heqc0; reflexivity);
       pose proof (inv_phase s HI) as Hph; unfold phase in Hph; rewrite Hhold, Heqc0 in Hph;
@@ -339,8 +341,8 @@ Proof.
       destruct Hph as [Hpa [H1 [H2 [H3 H4]]]].
     assert (Hw : w < nw s) by (apply H2; tauto).
     pose proof (inv_w s HI w Hw) as Hwx.
-    destruct HI as [Hp Hwf Hh Hhd Hph].
-    constructor; cbn [panic nw nc holder ct wk paused set_c set_w]; try assumption.
+    destruct HI as [Hp Hwf Hh Hhd Hph Hnl].
+    constructor; cbn [panic nw nc holder ct wk paused set_c set_w]; try assumption; try exact Hnl.
     + intros w' Hw'. unfold upd. destruct (w' =? w) eqn:E; [|apply Hwf; assumption].
       unfold wwf, wset_pc in *. cbn [w_pc w_tok w_pclosed w_rclosed w_sub w_stop].
       rewrite Heqw0 in Hwx. intuition (try discriminate; auto).
@@ -409,6 +411,7 @@ Proof.
     cbn [fixed v_unsubmutex] in Hstep.
     dstep Hstep; inversion Hstep; subst; clear Hstep. wstep_inv.
   - (* LDone *)
+    rewrite (inv_nolinks s HI w) in Hstep.
     dstep Hstep; inversion Hstep; subst; clear Hstep. wstep_inv.
   - (* LBusyStop *)
     dstep Hstep; inversion Hstep; subst; clear Hstep. wstep_inv.
@@ -430,8 +433,9 @@ Proof. apply run_inv. apply inv_init. Qed.
    the pause flag says ---- *)
 Ltac contra_q Hq l :=
   let Hn := fresh "Hn" in
-  pose proof (Hq l eq_refl) as Hn; unfold step, lock_free, plock_free in Hn;
-  cbn [fixed v_mutex v_pmutex v_early v_ackctx v_closep v_unsubmutex negb orb andb] in Hn;
+  pose proof (Hq l eq_refl) as Hn; unfold step, lock_free, plock_free, visit_ok in Hn;
+  cbn [fixed v_mutex v_pmutex v_early v_ackctx v_closep v_unsubmutex v_seq negb orb andb] in Hn;
+  try match goal with HI : Inv ?s |- _ => rewrite ?(inv_nolinks s HI) in Hn end;
   repeat match goal with
          | H : panic _ = _ |- _ => rewrite H in Hn
          | H : (_ <? _) = true |- _ => rewrite H in Hn
@@ -443,7 +447,7 @@ Ltac contra_q Hq l :=
          | H : free _ = _ |- _ => rewrite H in Hn
          end;
   cbn [fixed v_mutex v_pmutex v_early v_ackctx v_closep v_unsubmutex lock_free plock_free negb orb andb memb existsb] in Hn;
-  rewrite ?Nat.eqb_refl in Hn; cbn [orb andb] in Hn;
+  rewrite ?Nat.eqb_refl in Hn; cbn [orb andb negb] in Hn;
   repeat match type of Hn with
          | context [if ?b then _ else _] => destruct b
          end;
@@ -578,10 +582,10 @@ Lemma calls_complete_lemma : forall n m ls0 s,
   (exists ls s', all_sys ls /\ run fixed s ls = Some s' /\ quiescent fixed s').
 Proof.
   intros n m ls0 s Hreach. pose proof (reachable_inv n m ls0 s Hreach) as HI. split; [|split].
-  - intros ls s' Hall Hrun. pose proof (run_mu fixed ls s s' Hall Hrun). lia.
+  - intros ls s' Hall Hrun. pose proof (run_mu fixed ls s s' (inv_nolinks s HI) Hall Hrun). lia.
   - intros ls s' Hall Hrun Hq. apply final_ok_b_spec. apply quiescent_final; [|assumption].
     eapply run_inv; eassumption.
-  - apply maximal_exists.
+  - apply maximal_exists. exact (inv_nolinks s HI).
 Qed.
 
 (* stop_releases_workers: once nothing moves, every worker whose context was cancelled has
@@ -631,6 +635,11 @@ Proof.
              [|assumption]);
         try congruence;
         try (cbn [w_pc wset_stop wset_tok wset_pc]; assumption);
+        try (unfold upd;
+             repeat match goal with
+                    | |- context [?a =? ?b] => destruct (Nat.eqb_spec a b) as [->|?]
+                    end;
+             cbn [w_pc wset_pc]; congruence);
         try (exfalso; apply Hl; unfold releases; eauto).
       all: try (intros Heq; inversion Heq; subst; congruence). }
     destruct Hkeep as [Hk Hne].
@@ -802,11 +811,11 @@ Proof.
 Qed.
 
 (* each of the three repairs is needed: leave one out and the same schedules still get stuck *)
-Lemma without_ack_select_refuted : stuck (V false true true true false false) 1 1 w_stop_while_paused.
+Lemma without_ack_select_refuted : stuck (V false true true true false false false) 1 1 w_stop_while_paused.
 Proof. apply refutes_sound. vm_compute. reflexivity. Qed.
-Lemma without_resume_guard_refuted : stuck (V true false false false false false) 1 1 w_unmatched_resume.
+Lemma without_resume_guard_refuted : stuck (V true false false false false false false) 1 1 w_unmatched_resume.
 Proof. apply refutes_sound. vm_compute. reflexivity. Qed.
-Lemma with_pausech_close_refuted : stuck (V true true true true true false) 1 1 w_unsubscribe_race.
+Lemma with_pausech_close_refuted : stuck (V true true true true true false false) 1 1 w_unsubscribe_race.
 Proof. apply refutes_sound. vm_compute. reflexivity. Qed.
 
 (* repair candidates that the model rejects *)
@@ -818,14 +827,14 @@ Definition w_two_resumes : list label :=
    LResumeVisit 1 0; LResumeVisit 1 1; LResumeVisit 2 0; LResumeVisit 2 1;
    LHandshake 1 0; LHandshake 2 1].
 Lemma early_return_without_mutex_candidate_refuted :
-  stuck (V true false false true false false) 2 3 w_two_resumes.
+  stuck (V true false false true false false false) 2 3 w_two_resumes.
 Proof. apply refutes_sound. vm_compute. reflexivity. Qed.
 
 (* (b) Unsubscribe takes the mutex as well (to protect close(PauseCh)): Resume holds it while
    waiting for the very worker that is leaving. *)
 Definition w_unsub_mutex : list label :=
   full_pause 0 [0] ++ [LCall 0 KResume; LResumeBegin 0; LResumeVisit 0 0; LStop 0; LAckStop 0].
-Lemma unsubscribe_mutex_candidate_refuted : stuck (V true true true true true true) 1 1 w_unsub_mutex.
+Lemma unsubscribe_mutex_candidate_refuted : stuck (V true true true true true true false) 1 1 w_unsub_mutex.
 Proof. apply refutes_sound. vm_compute. reflexivity. Qed.
 
 Lemma orig_refuted_lemma :
@@ -840,11 +849,11 @@ Proof.
 Qed.
 
 Lemma repairs_needed_lemma :
-  stuck (V false true true true false false) 1 1 w_stop_while_paused /\
-  stuck (V true false false false false false) 1 1 w_unmatched_resume /\
-  stuck (V true true true true true false) 1 1 w_unsubscribe_race /\
-  stuck (V true false false true false false) 2 3 w_two_resumes /\
-  stuck (V true true true true true true) 1 1 w_unsub_mutex.
+  stuck (V false true true true false false false) 1 1 w_stop_while_paused /\
+  stuck (V true false false false false false false) 1 1 w_unmatched_resume /\
+  stuck (V true true true true true false false) 1 1 w_unsubscribe_race /\
+  stuck (V true false false true false false false) 2 3 w_two_resumes /\
+  stuck (V true true true true true true false) 1 1 w_unsub_mutex.
 Proof.
   exact (conj without_ack_select_refuted (conj without_resume_guard_refuted
         (conj with_pausech_close_refuted (conj early_return_without_mutex_candidate_refuted
@@ -989,7 +998,7 @@ Proof.
   induction ls as [|l ls IH]; intros s s' HI HJ Hrun Hnr; cbn [run] in Hrun.
   - inversion Hrun; subst. split; assumption.
   - destruct (step fixed s l) as [s1|] eqn:Hstep; [|discriminate].
-    apply (IH s1 s'); try assumption.
+    apply (IH s1 s'); try assumption; try exact Hnl.
     + eapply step_inv; eassumption.
     + eapply J_step; try eassumption. intros c. apply Hnr. left. reflexivity.
     + intros l' c Hin. apply Hnr. right. assumption.
@@ -1026,7 +1035,7 @@ Qed.
    already been released.  Controller 1's Pause finds isPaused still set, does nothing and
    returns - with worker 0 running on an empty PauseCh (pause_reaches_all is false); then the
    Resume finishes and nothing is paused although the last invocation was a Pause. *)
-Definition v_no_pause_mutex : variant := V true true false true false false.
+Definition v_no_pause_mutex : variant := V true true false true false false false.
 Definition w_pause_nomutex : list label :=
   [LWork 1; LCall 0 KPause; LPauseBegin 0; LPauseVisit 0 0; LPauseSend 0; LPauseVisit 0 1;
    LPauseSend 0; LPauseEnd 0; LTakePause 0;
@@ -1093,6 +1102,59 @@ Example nonvacuous_pause_sticks :
   match run fixed (init 2 2) w_pause_nomutex with
   | Some s => let t := quiesce fixed (S (mu s)) s in
               final_ok_b t && paused t && wpc_eqb (w_pc (wk t 0)) WAck && wpc_eqb (w_pc (wk t 1)) WAck
+  | None => false
+  end = true.
+Proof. vm_compute. reflexivity. Qed.
+
+(* =====================  workers that feed each other  ===================== *)
+(* Resume collects the acknowledgements CONCURRENTLY - one receiver goroutine per subscriber - so
+   no acknowledgement waits for another one.  With workers that feed each other this matters:
+   worker 0 passes its items on to worker 1.  Worker 1 has acknowledged the pause; worker 0 is
+   still inside an item, blocked in  outputCh <- seed  because worker 1 does not take anything,
+   its pause token queued.  A Resume that receives SEQUENTIALLY inside Range and meets worker 0
+   first waits for an acknowledgement that can only come after worker 1 has been woken - which the
+   same call would do next: circular wait, Resume never returns, every worker stays parked. *)
+Definition v_seq_resume : variant := V true true true true false false true.
+Definition link01 (w : nat) : option nat := match w with 0 => Some 1 | _ => None end.
+
+Definition w_seq_resume : list label :=
+  [LWork 1; LWork 0;                                  (* both inside an item; 0 waits for 1 *)
+   LCall 0 KPause; LPauseBegin 0; LPauseVisit 0 0; LPauseSend 0; LPauseVisit 0 1; LPauseSend 0;
+   LPauseEnd 0;
+   LDone 1; LTakePause 1;                             (* 1 is done, takes the token, acknowledges *)
+   LCall 0 KResume; LResumeBegin 0; LResumeVisit 0 0]. (* Range meets worker 0 first *)
+
+Definition stuck_l (v : variant) (n m : nat) (lk : nat -> option nat) (ls : list label) : Prop :=
+  exists s, run v (init_l n m lk) ls = Some s /\ quiescent v s /\ ~ final_ok s.
+
+Definition seq_resume_fixed_ok : bool :=
+  match run fixed (init_l 2 1 link01) w_seq_resume with
+  | Some s => final_ok_b (quiesce fixed 100 s) && negb (paused (quiesce fixed 100 s))
+  | None => false
+  end.
+
+Lemma sequential_resume_refuted :
+  stuck_l v_seq_resume 2 1 link01 w_seq_resume /\
+  (* the same schedule is one of the real code too, and there the concurrent receivers finish it *)
+  seq_resume_fixed_ok = true.
+Proof.
+  split.
+  - unfold stuck_l.
+    destruct (run v_seq_resume (init_l 2 1 link01) w_seq_resume) as [s|] eqn:Hrun;
+      [|vm_compute in Hrun; discriminate].
+    exists s. split; [reflexivity|].
+    assert (Hb : quiescent_b v_seq_resume s && negb (final_ok_b s) = true).
+    { revert Hrun. vm_compute. intros Hrun. inversion Hrun; subst. reflexivity. }
+    apply andb_prop in Hb. destruct Hb as [Hq Hf]. split; [now apply quiescent_b_spec|].
+    apply final_ok_b_false. destruct (final_ok_b s); [discriminate | reflexivity].
+  - vm_compute. reflexivity.
+Qed.
+
+(* with independent workers the sequential variant survives the same shape of schedule: the
+   defect needs the dependency *)
+Example sequential_resume_needs_dependency :
+  match run v_seq_resume (init 2 1) w_seq_resume with
+  | Some s => final_ok_b (quiesce v_seq_resume 100 s)
   | None => false
   end = true.
 Proof. vm_compute. reflexivity. Qed.
